@@ -980,7 +980,7 @@ class DynamicVector : public DynamicVectorBaseTypeDispatcher<T, Alloc, SizeType,
     // Read sizes and capacities before anything is exchanged
     const SizeType mySize = this->size();
     const OSizeType oSize = o.size();
-    if (this->canSwapDynStorage(o)) {
+    if (this->canExchangeDynStorage(o)) {
       const SizeType myCapa = this->capacity();
       const OSizeType oCapa = o.capacity();
       this->swapDynStorage(o);
@@ -995,6 +995,16 @@ class DynamicVector : public DynamicVectorBaseTypeDispatcher<T, Alloc, SizeType,
       this->setSize(static_cast<SizeType>(oSize));
       o.setSize(static_cast<OSizeType>(mySize));
     }
+  }
+
+  /// Dynamic storages can be exchanged if both vectors use one, from the same allocator type, and if each capacity
+  /// (hence each size) fits in the size type of the other vector.
+  template <class VectorType>
+  bool canExchangeDynStorage(VectorType &o) const noexcept {
+    return this->canSwapDynStorage(o) &&
+           static_cast<uintmax_t>(o.capacity()) <= static_cast<uintmax_t>(std::numeric_limits<SizeType>::max()) &&
+           static_cast<uintmax_t>(this->capacity()) <=
+               static_cast<uintmax_t>(std::numeric_limits<typename VectorType::size_type>::max());
   }
 
   /// Grow for one more element. If growing fails, destroy the already constructed new element before rethrowing.
@@ -1055,7 +1065,7 @@ class DynamicVector : public DynamicVectorBaseTypeDispatcher<T, Alloc, SizeType,
   /// (as the two size types may differ we should use LargestSizeType to avoid overflows)
   template <class VectorType>
   void adjustEachOtherCapacity(VectorType &o) {
-    if (!this->canSwapDynStorage(o)) {
+    if (!this->canExchangeDynStorage(o)) {
       adjustCapacity(o.size());
       o.adjustCapacity(this->size());
     }
